@@ -677,6 +677,7 @@ class Model:
     def decode(self, tid, data, full=True):
         """-> (value, consumed). Raises DecodeFault / Abstain."""
         st = _DecState()
+        self.last_state = st
         v, n = self._decode(tid, bytes(data), st, 0)
         if full and n != len(data):
             st.faults.append("trailing")
@@ -935,6 +936,8 @@ class Model:
         if esf is not None and ew is None:
             # every element occupies exactly `es` octets
             es = esizes[i]
+            if es == 0:
+                st.saw_element_size_0 = True   # (workload shaping only: see cxxwl)
             if static_count is not None:
                 n = static_count
             elif tgt is not None and tgt["kind"] == "count_field":
@@ -1180,6 +1183,7 @@ class _DecState:
     def __init__(self):
         self.faults = []
         self.where = ""
+        self.saw_element_size_0 = False
         self.array_depth = 0      # > 0 while an array element is being decoded
         self.first_in_array = False
 
